@@ -117,8 +117,9 @@ class Run:
         'coverage': cov, 'assumptions': self.assumptions + self.notes,
         'wall_s': round(time.time() - self.t0, 2), 'violations': len(new_viol),
     }
-    os.makedirs(os.path.join(VERIF, 'evidence'), exist_ok=True)
-    with open(os.path.join(VERIF, 'evidence', self.pid + '.json'), 'w') as f:
+    evdir = os.environ.get('VERIF_EVIDENCE_DIR') or os.path.join(VERIF, 'evidence')   # seed runs point this elsewhere
+    os.makedirs(evdir, exist_ok=True)
+    with open(os.path.join(evdir, self.pid + '.json'), 'w') as f:
       json.dump(ev, f, indent=1, default=str)
     for v in known_hit:
       print('KNOWN-FINDING: property=%s %s' % (self.pid, known_keys[v['key']].get('what', v['what'])))
